@@ -218,6 +218,8 @@ def oracle(seed, tier):
         sem = _real_sws(cap)
         ref = RefSemaphore(cap)
         res.evaluations += 1
+        if res.enough():
+            break
         interesting = False
         for i, op in enumerate(h):
             got = _apply_real(sem, op)
@@ -386,6 +388,8 @@ def blocking_oracle(seed, tier, prop='C12'):
         mode = ['uniform', 'sticky', 'pct', 'stall'][i % 4]
         events, fail, sch, sem = blocking_run(rng.randrange(1 << 30), cap, plans, mode)
         res.evaluations += 1
+        if res.enough():
+            break
         worst, at = window_used(events)
         if worst > cap:
             res.violation('window-exceeded',
@@ -511,6 +515,8 @@ def cci_conc_oracle(seed, tier):
         mode = ['uniform', 'sticky', 'pct', 'stall'][i % 4]
         events, fired, fail, sch, cci = cci_run(rng.randrange(1 << 30), nparts, mode, early)
         res.evaluations += 1
+        if res.enough():
+            break
         order = tuple(l.split()[1] for _, l, _ in events)
         res.nontrivial.add((nparts, order))
         wit = {'parts': nparts, 'may_finish_before_finalize': early, 'mode': mode, 'schedule': sch.choices[:200],
